@@ -316,7 +316,7 @@ Proof.
         rewrite En by lia. 
         assert (G1 : grow_ok (top s) (bot s) (cur s) (upd (arrs s) n (fresh (S (lg (arrs s (cur s)))))) n
                      (mk UGRd (b T) (t T) (cur s) n (t T) (arg T) (rv T) (prog T) (opi T))).
-        { unfold grow_ok; cbn [b t a na i mk]. rewrite En by lia. rewrite upd_same. cbn [lg fresh].
+ Show. all: fail.
           repeat split; auto; try lia. intros j Hj. lia. }
         destruct (Z.ltb_spec (t T) (b T)); cbn [pc mk]; (split; [exact G1 | cbn [b i mk]; lia]).
       * apply others_thief; auto. left. unfold Ls; cbn [thr bot]; rewrite upd_same, Kx, K0. lia.
